@@ -95,7 +95,7 @@ def generate(rng: Prng, tier: str) -> dict:
                            ("fault", 3 if faulting else 0)])
         h = w.below(64)
         if kind == "pop":
-            ops.append({"op": "pop", "root": w.below(n_roots)})
+            ops.append({"op": "pop", "root": w.below(n_roots), "slash": w.chance(0.15)})
         elif kind == "len":
             ops.append({"op": "len", "h": h})
         elif kind == "idx":
@@ -107,7 +107,8 @@ def generate(rng: Prng, tier: str) -> dict:
             ops.append({"op": "iter", "h": h, "m": w.choice([None, None, 1, 2, 5])})
         elif kind == "pops":
             k = w.randint(1, n_roots)
-            ops.append({"op": "pops", "roots": w.sample(list(range(n_roots)), k)})
+            ops.append({"op": "pops", "roots": w.sample(list(range(n_roots)), k), "slash": [w.chance(0.15) for _ in range(k)],
+                        "intersect": not w.chance(0.25)})
         elif kind == "topop":
             ops.append({"op": "topop", "h": h})
         elif kind == "chain":
@@ -127,7 +128,12 @@ def generate(rng: Prng, tier: str) -> dict:
     stream = {}
     if faulting and fp.chance(0.4):
         stream = {"chunks": [fp.choice([1, 3, 17, 4096])], "buffer_size": fp.choice([1, 7, 512, 8192])}
+    opts = rng.stream("read_opts")
+    # read options forwarded to every lazy read: with sort_nodes the files list their rows out of order with sparse
+    # ids, so a read that loses the option hands out a tree that is not the file's tree
+    read_opts = {"sort_nodes": True} if opts.chance(0.3) else {}
     return {"prop": PROP, "n_roots": n_roots, "files": sorted(set(files)), "dirs": dirs, "listing": listing, "ops": ops,
+            "read_opts": read_opts,
             "pool_sched": pool_sched, "stream": stream, "config": "faulting" if faulting else "fault_free"}
 
 
@@ -226,7 +232,9 @@ class Sim:
             sig += 1
             self.layout[f] = ("file", sig)
             self.sig_of[f] = sig
-            if f.endswith(".swc"):
+            if f.endswith(".swc") and program.get("read_opts", {}).get("sort_nodes"):
+                body = f"# file {f}\n9 3 {sig} 2 0 0.5 3\n7 1 {sig} 0 0 1 -1\n3 3 {sig} 1 0 1 7\n"
+            elif f.endswith(".swc"):
                 body = f"# file {f}\n1 1 {sig} 0 0 1 -1\n2 3 {sig} 1 0 1 1\n3 3 {sig} 2 0 0.5 2\n"
             else:
                 body = "not an swc file\n"
@@ -258,6 +266,10 @@ class Sim:
             raise Violation("wrong_tree", op, f"{rel} is not a matching file of the population")
         if float(tree.x()[0]) != float(base.sig[rp]):
             raise Violation("wrong_tree", op, f"tree with source {rel} carries signature {float(tree.x()[0])}")
+        if [int(v) for v in tree.pid()] != [-1, 0, 1] or [float(v) for v in tree.y()] != [0.0, 1.0, 2.0] \
+                or [int(v) for v in tree.type()] != [1, 3, 3]:
+            raise Violation("wrong_tree", op, f"tree {rel} is not the file's tree under the population's read options: "
+                            f"pid {[int(v) for v in tree.pid()]}, y {[float(v) for v in tree.y()]}")
         want_r = 2.0 if transformed else 1.0
         if float(tree.r()[0]) != want_r:
             raise Violation("wrong_tree", op, f"tree {rel}: radius {float(tree.r()[0])}, expected {want_r}")
@@ -330,12 +342,18 @@ class Sim:
                     raise Violation("wrong_tree", op, f"row {j}: {rp} read, but {b.known[j]} before")
                 b.known.setdefault(j, rp)
                 returned.append((b, rp))
-        if len(rps) > 1:
+        if len(rps) > 1 and h.inter is not None:
             raise Violation("eager_load", op, f"a failing row access opened files of several rows: {sorted(rps)}")
         self.settle(mark, returned, True, op)
 
     def access(self, h: Handle, i: int, op: str):
         """One indexing step on handle h with raw index i; returns list[(base, rp)]"""
+        if h.kind == "PS" and h.inter is None:
+            # matched by index: a row is defined for 0 <= i < shortest length only (a negative or larger index means
+            # a different element in every member, and the statement says nothing about it)
+            if h.n == 0:
+                return "skip"
+            i = i % h.n
         j = pop_model.norm_index(i, h.n)
         mark = len(self.w.open_log)
         try:
@@ -364,10 +382,11 @@ class Sim:
             for b, t in zip(h.member_bases, res):
                 returned.append(self.identify(t, (b, j, False), op))
                 rps.append(returned[-1][1])
-            if len(set(rps)) != 1:
-                raise Violation("row_mismatch", op, f"row {j} holds files with different relative paths: {rps}")
-            if rps[0] not in h.inter:
-                raise Violation("row_mismatch", op, f"{rps[0]} is not common to all roots")
+            if h.inter is not None:
+                if len(set(rps)) != 1:
+                    raise Violation("row_mismatch", op, f"row {j} holds files with different relative paths: {rps}")
+                if rps[0] not in h.inter:
+                    raise Violation("row_mismatch", op, f"{rps[0]} is not common to all roots")
         else:
             returned.append(self.identify(res, h.resolve(j), op))
         for base, rp in returned:
@@ -417,7 +436,7 @@ class Sim:
             base = self.new_base(root)
             mark = len(w.open_log)
             try:
-                obj = Population.from_swc(w.path(root))
+                obj = Population.from_swc(w.path(root) + ("/" if op.get("slash") else ""), **self.p.get("read_opts", {}))
             except Exception as e:  # noqa: BLE001
                 if self.any_bad_unloaded([base]):
                     self.settle(mark, [], True, "Population.from_swc", [base])
@@ -433,13 +452,16 @@ class Sim:
         elif kind == "pops":
             roots = [f"r{r}" for r in op["roots"]]
             bases = [self.new_base(r) for r in roots]
+            by_index = op.get("intersect") is False
             inter = pop_model.intersection(self.layout, roots)
-            for b in bases:
-                b.files = set(inter)
-                b.n = len(inter)
+            if not by_index:
+                for b in bases:
+                    b.files = set(inter)
+                    b.n = len(inter)
             mark = len(w.open_log)
             try:
-                obj = Populations.from_swc([w.path(r) for r in roots])
+                spelled = [w.path(r) + ("/" if sl else "") for r, sl in zip(roots, op.get("slash") or [False] * len(roots))]
+                obj = Populations.from_swc(spelled, **({"intersect": False} if by_index else {}), **self.p.get("read_opts", {}))
             except Exception as e:  # noqa: BLE001
                 if self.any_bad_unloaded(bases):
                     self.settle(mark, [], True, "Populations.from_swc", bases)
@@ -448,7 +470,10 @@ class Sim:
                     raise Violation("unexpected_exception", "Populations.from_swc", f"{type(e).__name__}: {e}"[:300])
             else:
                 self.settle(mark, [], False, "Populations.from_swc", bases)
-                h = Handle("PS", obj, len(inter), member_bases=bases, inter=set(inter))
+                h = Handle("PS", obj, min(b.n for b in bases) if by_index else len(inter), member_bases=bases,
+                           inter=None if by_index else set(inter))
+                if by_index:
+                    w.probe("c19.populations_without_intersection")
                 self.handles.append(h)
                 self.check_len(h, "Populations.from_swc")
                 if obj.num_of_populations() != len(roots):
@@ -513,7 +538,7 @@ class Sim:
                         for b, tt in zip(h.member_bases, t):
                             returned.append(self.identify(tt, (b, k, False), "iter(PS)"))
                             rps.add(returned[-1][1])
-                        if len(rps) != 1 or len(t) != len(h.member_bases):
+                        if (h.inter is not None and len(rps) != 1) or len(t) != len(h.member_bases):
                             raise Violation("row_mismatch", "iter(PS)", f"row {k}: {sorted(rps)}")
                     else:
                         returned = [self.identify(t, h.resolve(k), f"iter({h.kind})")]
@@ -670,6 +695,10 @@ class Sim:
             for j in range(h.n):
                 self.access(h, j, f"sweep({h.kind})")
             for b in h.bases():
+                if h.kind == "PS" and h.inter is None and (b.n != h.n or self.any_bad_unloaded(h.bases())):
+                    # matched by index: the longer members are only visited up to the shortest length, and a damaged
+                    # file in one member hides the differently named files of the same row in the others
+                    continue
                 got = set(b.known.values())
                 peers = h.bases() if h.kind == "PS" else [b]
                 missing = {rp for rp in b.files if rp not in got
